@@ -414,11 +414,12 @@ def checkI2N (desc dump : PV) : List String := Id.run do
 
 def dedup (l : List String) : List String := l.foldl (fun acc x => if acc.contains x then acc else acc ++ [x]) []
 
-/-- surface spellings norad (as it is) refuses, and the one it accepts while dropping the value -/
+/-- surface spellings norad (as it is) refuses (`comment-in-glyph` left this list with norad commit 0ece54e: comments
+inside glyph / outline / contour are skipped now and the case must load with every value), and the one it accepts while dropping the value -/
 def rejectedSpellings : List String :=
   ["explicit-close-advance", "explicit-close-unicode", "explicit-close-anchor", "explicit-close-guideline",
    "explicit-close-image", "explicit-close-point", "explicit-close-component", "empty-note", "self-closed-glyph",
-   "comment-in-glyph", "doctype-glif", "cdata-layer-color"]
+   "doctype-glif", "cdata-layer-color"]
 def alteringSpellings : List String :=
   ["cdata-note", "cdata-fontinfo", "cdata-font-lib", "cdata-layer-lib", "cdata-glyph-lib"]
 /-- strings norad writes in a way an XML reader does not give back (n2i) -/
